@@ -18,10 +18,21 @@ type PropConfig struct {
 	Exclude     []string `json:"exclude,omitempty"`     // function keys excluded from the package sweep (with reason in notes)
 	OnlyTagged  bool     `json:"only_tagged,omitempty"` // count only clauses tagged with this property id
 	Kinds       []string `json:"kinds,omitempty"`       // restrict to obligation kinds with these prefixes
-	Analyses    []string `json:"analyses,omitempty"`    // solver-free analyses (frames, effect inventory, dependence)
+	Analyses    []AnalysisSpec `json:"analyses,omitempty"` // solver-free inventory analyses over the SSA call graph
 	Assumptions []string `json:"assumptions"`
 	Level       string   `json:"level"`
 	Notes       string   `json:"notes,omitempty"`
+}
+
+type AnalysisSpec struct {
+	Kind          string   `json:"kind"` // effects | writes | impls
+	Name          string   `json:"name,omitempty"`
+	Roots         []string `json:"roots,omitempty"`
+	Forbidden     []string `json:"forbidden,omitempty"`
+	AllowedIn     []string `json:"allowed_in,omitempty"`
+	ImmutablePkgs []string `json:"immutable_pkgs,omitempty"`
+	Scratch       []string `json:"scratch,omitempty"`
+	Iface         string   `json:"iface,omitempty"`
 }
 
 type KnownFinding struct {
@@ -200,6 +211,18 @@ func cmdCheck(args []string) int {
 	ledgerPath := filepath.Join(vr, "ledger", id+".json")
 	if mkLedger {
 		var led []LedgerEntry
+		for _, a := range pc.Analyses {
+			n := "inventory/" + a.Kind + "/" + a.Name
+			switch a.Kind {
+			case "impls":
+				n = "inventory/impls/" + shortCallee(a.Iface)
+			case "effects":
+				n = "inventory/effects/" + a.Name
+			case "writes":
+				n = "inventory/writes/" + a.Name
+			}
+			led = append(led, LedgerEntry{"(analysis)", n})
+		}
 		for _, r := range results {
 			for _, o := range r.Obls {
 				if stableKind(o.Name) {
@@ -287,6 +310,33 @@ func cmdCheck(args []string) int {
 			genErr[r.Fn] = true
 		}
 	}
+	// solver-free inventory analyses
+	var analysisReports []map[string]any
+	for _, a := range pc.Analyses {
+		var r analysisResult
+		switch a.Kind {
+		case "effects":
+			r = e.effectInventory(a.Name, a.Roots, a.Forbidden, a.AllowedIn)
+		case "writes":
+			r = e.writeInventory(a.Name, a.Roots, a.ImmutablePkgs, a.Scratch)
+		case "impls":
+			r = e.ifaceImplInventory(a.Iface)
+		default:
+			r = analysisResult{Name: "inventory/" + a.Kind, Desc: "unknown analysis kind"}
+		}
+		total++
+		generated["(analysis)|"+r.Name] = true
+		rep := oblReport{Fn: "(analysis)", Name: r.Name, Desc: r.Desc, Answer: "holds", By: "ssa call-graph inventory (solver-free)"}
+		if r.OK {
+			discharged++
+			bySolver["inventory"]++
+		} else {
+			rep.Answer = "fails"
+			fails = append(fails, failure{fn: "(analysis)", name: r.Name, reason: "inventory analysis failed: " + strings.Join(r.Detail, " | "), desc: r.Desc})
+		}
+		all = append(all, rep)
+		analysisReports = append(analysisReports, map[string]any{"name": r.Name, "holds": r.OK, "what": r.Desc, "detail": r.Detail})
+	}
 	for _, l := range ledger {
 		if genErr[l.Fn] {
 			continue // already reported once as a generator error for that function
@@ -346,6 +396,16 @@ func cmdCheck(args []string) int {
 		fmt.Printf("VIOLATION property=%s replay=%s obligation=%s::%s reason=%q%s\n", id, rp, shortCallee(f.fn), f.name, f.reason, suffix)
 	}
 	// evidence
+	var assumedSummaries []string
+	schemaUses := 0
+	for _, r := range results {
+		if r.Skipped {
+			assumedSummaries = append(assumedSummaries, shortCallee(r.Fn))
+		}
+		if r.Ctx != nil {
+			schemaUses += r.Ctx.schemaUses
+		}
+	}
 	var trusted []string
 	usedT := map[string]bool{}
 	var unknownCalls []string
@@ -403,6 +463,9 @@ func cmdCheck(args []string) int {
 		"known_findings":           knownHit,
 		"slow_obligations":         slow,
 		"explanation":              pc.Notes,
+		"inventory_analyses":       analysisReports,
+		"assumed_in_repo_summaries": assumedSummaries,
+		"schema_unfoldings_used":   schemaUses,
 	}
 	if total == 0 {
 		// never report success on zero obligations
